@@ -168,7 +168,7 @@ static string json_summary(const string &mode, uint64_t seed, const Stats &st) {
   o << "}}";
   return o.str();
 }
-static string default_devmap(const string &mode) { return mode == "batch" ? "NN" : "NE"; }
+static string default_devmap(const string &mode) { return mode == "batch" || mode == "api" ? "NN" : "NE"; }
 
 int main(int argc, char **argv) {
   if (argc < 3) { fprintf(stderr, "usage: prog_drv <mode> <seed> <n> | <mode> --replay <file> | <mode> --candidates <file>\n"); return 2; }
